@@ -92,15 +92,30 @@ _ACT = re.compile(r'Error: Action property (\w+) is violated')
 _SIMSTATES = re.compile(r'The number of states generated: (\d+)')
 
 
-def run(module, cfg_text, ctx, *, workers=16, simulate=None, depth=None, seed=None, coverage=True,
-        env=None, timeout=600, label=None, cont=False, deque=False, specs_dir=SPECS, extra=(), need_finish=True):
-    """Run TLC on specs/<module>.tla with the given cfg text. Returns TLCResult."""
+def run(module, cfg_text, ctx, **kw):
+    """Run TLC on specs/<module>.tla with the given cfg text. Returns TLCResult.
+    A resource failure of the JVM (stack, heap, wall-clock under load) says nothing about the specification or the
+    code: it is retried once (with twice the time) before it becomes a machinery failure."""
+    try:
+        return _run_once(module, cfg_text, ctx, **kw)
+    except MachineryError as e:
+        if not any(t in str(e) for t in ('StackOverflowError', 'OutOfMemoryError', 'timed out', 'Cannot allocate memory')):
+            raise
+        print(f'NOTE: TLC resource failure, retrying once: {str(e)[:120]!r}', flush=True)
+        if 'timeout' in kw or 'timed out' in str(e):
+            kw['timeout'] = 2 * kw.get('timeout', 600)
+        time.sleep(2)
+        return _run_once(module, cfg_text, ctx, **kw)
+
+
+def _run_once(module, cfg_text, ctx, *, workers=16, simulate=None, depth=None, seed=None, coverage=True,
+              env=None, timeout=600, label=None, cont=False, deque=False, specs_dir=SPECS, extra=(), need_finish=True):
     label = label or module
     meta = ctx.mkdir(f'tlc-{label}-{int(time.time() * 1000) % 10 ** 9}')
     cfg = os.path.join(meta, f'{label}.cfg')
     with open(cfg, 'w') as f:
         f.write(cfg_text)
-    cmd = ['java', '-XX:+UseParallelGC', '-Xmx12g']
+    cmd = ['java', '-XX:+UseParallelGC', '-Xmx12g', '-Xss256m']   # deep recursive operators: the default 1 MB stack overflowed once under load
     if deque:
         cmd.append('-Dtlc2.tool.queue.IStateQueue=StateDeque')
     cmd += ['-cp', JAR, 'tlc2.TLC', '-workers', str(workers), '-metadir', os.path.join(meta, 'states'),
